@@ -25,6 +25,9 @@ CLAIMED = {
     "C17": ("exploration", "property-based round-trip testing of byte encodings with cross-proving between original and restored circuits",
             "Generated circuits over the default serializer registries (20 generator kinds, 15 gate kinds observed, incl. lookups and blinding): proofs, compressed proofs, CircuitData, Prover/Verifier/Common/VerifierOnly data round-trip, re-encode byte-identically, keep their digest, and original/restored circuits accept each other's fresh proofs with the reference public inputs.",
             "Poseidon config only (default generator serializer needs an algebraic hasher). Recursion-only generators are added with the recursion checks.", "§C17"),
+    "C05": ("fault_enumeration", "property-based testing at the FRI API level: generated oracle shapes / opening batches / FRI parameters, own Horner and fold references, adversarial deviations (wrong opening, inconsistent layers via an own FRI prover, high-degree functions, grinding sweep) and per-element edits under fixed challenges",
+            "Generated single-degree and batched (1-3 degrees) FRI instances must be accepted with harness-computed true openings; every deviation class of the statement is constructed (wrong opening value, first/deeper layer committed to other values, high-degree function folded honestly, insufficient proof-of-work, value and shape edits of every element with the honest challenges re-used) and must be rejected; elements that are legitimately unread under fixed challenges (pow witness, unselected cap entries) are computed by the harness and exempt.",
+            "High-degree rejections asserted only when a reference fold shows a query hits the non-zero truncated part (deterministic); batched variant covers deviations (a), (d), (e).", "§C05"),
     "C06": ("exploration", "differential property testing: native verifier vs. in-circuit verifier (library assignment + witness generation + O-sat), over generated inner circuits and tampered / false / badly ground inner proofs",
             "For each generated inner circuit an outer recursive-verifier circuit (Poseidon or Keccak outer config) is built; honest inner proofs must be accepted, provable and re-expose the inner public inputs; inner proofs edited in every component class, a false statement emitted by the real prover, an overridden grinding witness and a wrong verifier digest must get the same verdict from the native verifier and from the outer circuit. On a sample of rejected cases the real outer prover is run and its proof must not verify.",
             "Circuit-side verdict = assignment and witness generation succeed and the satisfaction oracle (gate rows via eval_unfiltered, copy classes) is clean.", "§C06"),
